@@ -33,6 +33,7 @@ ASSUMPTIONS = [
     "as_obj is modelled top-down: a payload position whose id is registered yields the registered object and its payload subtree is not visited",
     "at digest sizes 1 and 2 only the un-suffixed part of a fresh id is required to be deterministic (different contents collide)",
 ]
+TYPECHECK_OK = True  # every generated value conforms to its annotation: some shards run with RUNTIME_TYPE_CHECK on
 MUST_SEE = ["failing_duplicate", "remodelled_class_detach", "replace_without_changes", "id_determinism_checks_with_occupied_neighbours", 
     "op_detach_stale_with_live_twin", "op_replace_fail", "drops", "suffix_ge_2", "detach_depth_ge2", "asobj_recreated",
     "asobj_reused", "digest1_histories", "dead_weakrefs_checked", "replace_on_stale", "id_determinism_checks", "replace_fail_after_registration",
